@@ -22,6 +22,27 @@ def _quiet():
     logzero.loglevel(logging.CRITICAL)
 
 
+def _watchdog(tier):
+    """a check that does not finish is a machinery error (exit 2), never a verdict: dump where it hangs and leave"""
+    import faulthandler
+    import signal
+
+    limit = int(os.environ.get("VERIF_TIMEOUT", "1500" if tier == "quick" else "10800"))
+    faulthandler.register(signal.SIGUSR1, all_threads=True)
+
+    def on_timeout():
+        sys.stderr.write(f"check did not finish within {limit} s; stacks follow\n")
+        faulthandler.dump_traceback(all_threads=True)
+        sys.stderr.flush()
+        os._exit(2)
+
+    import threading
+
+    t = threading.Timer(limit, on_timeout)
+    t.daemon = True
+    t.start()
+
+
 def main():
     ap = argparse.ArgumentParser()
     ap.add_argument("pid")
@@ -32,6 +53,7 @@ def main():
     tier = "thorough" if a.tier == "thorough" else "quick"
     seed = int(os.environ.get("VERIF_SEED", "0") or 0)
     pid = a.pid.upper()
+    _watchdog(tier)
     mod = importlib.import_module(f"props.{pid.lower()}")
     _quiet()
     t0 = time.time()
